@@ -1098,6 +1098,25 @@ func (e *Env) trCall(x *ast.CallExpr) TV {
 		es := sortOf(u.Elem())
 		el := vc.hget(e.old, elemsArr(es), elemsSort(es))
 		return TV{T: app("select", app("select", el, app("sid", v.T)), app("idx", v.T, i.T)), S: goSType(u.Elem())}
+	case "substr":
+		sv := e.tr(arg(0))
+		lo := e.tr(arg(1))
+		hi := e.tr(arg(2))
+		vc.declStrSub()
+		return TV{T: app("str_sub", sv.T, lo.T, hi.T), S: sv.S}
+	case "mapdom", "mapval":
+		m := e.tr(arg(0))
+		mt, ok := types.Unalias(m.S.Go).Underlying().(*types.Map)
+		if !ok {
+			e.fail(x, "%s: not a Go map", id.Name)
+		}
+		ks, vs := sortOf(mt.Key()), sortOf(mt.Elem())
+		if id.Name == "mapdom" {
+			md := vc.hget(e.heap, mapDomArr(ks), mapDomSort(ks))
+			return TV{T: app("select", md, m.T), S: &SType{Sort: fmt.Sprintf("(Array %s Bool)", ks), Key: goSType(mt.Key()), Elem: stBool}}
+		}
+		mv := vc.hget(e.heap, mapValArr(ks, vs), mapValSort(ks, vs))
+		return TV{T: app("select", mv, m.T), S: &SType{Sort: fmt.Sprintf("(Array %s %s)", ks, vs), Key: goSType(mt.Key()), Elem: goSType(mt.Elem())}}
 	case "top":
 		return TV{T: vc.hget(e.heap, "top", "Int"), S: &SType{Sort: "Int"}}
 	case "backing":
